@@ -57,6 +57,8 @@ OBLIGATIONS = [
         "C07_regression_xor",
         "C07_regression_xor_none",
         "C07_old_xor_sorted_by_value",
+        "C07_aliasing_invariant",
+        "C07_witness_stale_placeholder",
         "heads_prefix_free",
         "Sources.sources_ok",
     )
@@ -79,6 +81,8 @@ def gen_value(rng):
     if r < 0.55:  # chains of frozensets are totally ordered by proper subset
         a = [H.gen_key(rng, "str") for _ in range(3)]
         return {"k": "frozenset", "xs": [{"k": "frozenset", "xs": a[:1]}, {"k": "frozenset", "xs": a[:2]}, {"k": "frozenset", "xs": a}]}
+    if r >= 0.72 and r < 0.84:  # one object (a File, a container, an instance) referenced several times
+        return H.gen_aliased(rng)
     if r < 0.72 and r >= 0.62:  # arrays in every memory layout (alone and inside containers)
         arr = H.gen_ndarray(rng)
         return arr if rng.random() < 0.5 else {"k": "dict", "items": [[H._s("a"), arr], [H._s("b"), H.gen_ndarray(rng)]]}
@@ -89,6 +93,19 @@ def gen_value(rng):
 
 
 def gen_task(rng):
+    if rng.random() < 0.35:  # one object (a File, …) given to two inputs and once more inside a list
+        al = H.gen_aliased(rng)
+        d = next(n for n in H.walk(al) if n["k"] == "def")
+        u = {"k": "use", "name": d["name"]}
+        other = H.gen_file(rng)
+        return {
+            "kind": "python",
+            "name": "T",
+            "params": ["a", "b", "c"],
+            "body": ["return 3"],
+            "ret": "int",
+            "inputs": {"a": d, "b": u, "c": {"k": "list", "xs": [other, u, other]}},
+        }
     if rng.random() < 0.6:
         return {
             "kind": "python",
@@ -149,9 +166,18 @@ def observe(ctx, values: list[dict], tasks: list[dict], moddir: Path):
             if got:
                 m = got[0]
                 break
-        if m is not None and H.canon_key(m) == H.canon_key(s):
+        # (re-ordering the items of a mapping may move a `use` in front of its `def`: such a variant is not a value)
+        if m is not None and H.well_scoped(m) and H.canon_key(m) == H.canon_key(s):
             shuffled = H.impl_hash(H.Builder(moddir).build(m))
-        vrows.append({"spec": s, "parent": H.impl_hash(v), "case": H.to_case(v), "shuffled": shuffled, "children": []})
+        # aliasing is not content: the equal value built from separate equal objects
+        unshared = None
+        if any(n["k"] == "use" for n in H.walk(s)) and not H.has_cycle(s):
+            import copy as _copy
+
+            u = H.unshare(_copy.deepcopy(s))
+            if H.well_scoped(u) and H.canon_key(u) == H.canon_key(s):
+                unshared = H.impl_hash(H.Builder(moddir).build(u))
+        vrows.append({"spec": s, "parent": H.impl_hash(v), "case": H.to_case(v), "shuffled": shuffled, "unshared": unshared, "children": []})
     trows = []
     for k, t in enumerate(tasks):
         b = H.Builder(moddir)
@@ -162,6 +188,21 @@ def observe(ctx, values: list[dict], tasks: list[dict], moddir: Path):
             cs = "!" + core.exc_tag(e)
             obj = None
         row = {"spec": t, "parent": cs, "def": H.task_def_case(obj) if obj is not None else None, "children": []}
+        inputs = t["task"].get("inputs") or {}
+        if obj is not None and any(n["k"] == "use" for v in inputs.values() for n in H.walk(v)):
+            # the same task built from separate equal objects, and both after a pickling round trip
+            import copy as _copy
+
+            import cloudpickle as _cp
+
+            env: dict = {}
+            t2 = {**t["task"], "inputs": {n: H.unshare(_copy.deepcopy(v), env) for n, v in inputs.items()}}
+            try:
+                obj2 = H.build_task(t2, H.Builder(moddir))
+                row["unshared_checksum"] = obj2._checksum
+                row["pickled_checksums"] = [_cp.loads(_cp.dumps(obj))._checksum, _cp.loads(_cp.dumps(obj2))._checksum]
+            except Exception as e:
+                row["unshared_checksum"] = "!" + core.exc_tag(e)
         if t.get("hash_value") and obj is not None:
             row["parent_hex"] = H.impl_hash(obj)
             row["parent_case"] = H.to_case(obj)
@@ -218,6 +259,8 @@ def judge_values(ctx, vrows):
         obs = {"parent": r["parent"], "children": [ch["hex"] for ch in r["children"]]}
         if r["shuffled"] is not None:
             obs["shuffled"] = r["shuffled"]
+        if r.get("unshared") is not None:
+            obs["unshared"] = r["unshared"]
         model = None
         if ans is not None:
             ms = []
@@ -229,9 +272,11 @@ def judge_values(ctx, vrows):
                 model = {"parent": ms[0], "children": ms[1:]}
                 if r["shuffled"] is not None:
                     model["shuffled"] = ms[0]
+                if r.get("unshared") is not None:
+                    model["unshared"] = ms[0]
             else:
                 ctx.count("model-declines")
-        allh = [obs["parent"]] + obs["children"] + ([obs["shuffled"]] if "shuffled" in obs else [])
+        allh = [obs["parent"]] + obs["children"] + ([obs["shuffled"]] if "shuffled" in obs else []) + ([obs["unshared"]] if "unshared" in obs else [])
         ok = not any(h.startswith("!") for h in allh) and len(set(allh)) == 1
         u = H.mixed_key_dicts(r["spec"])
         defect = None  # no finding is listed for C07: every disagreement between sessions is a violation
@@ -269,6 +314,9 @@ def judge_tasks(ctx, trows):
     for r in trows:
         spec = r["spec"]
         obs = {"checksum": r["parent"], "children": [ch.get("checksum") for ch in r["children"]]}
+        if "unshared_checksum" in r:
+            obs["unshared_checksum"] = r["unshared_checksum"]
+            obs["pickled_checksums"] = r.get("pickled_checksums")
         runs = [ch for ch in r["children"] if "out" in ch]
         if runs:
             # one job directory per cache root, named by the checksum; session 1 re-uses session 0's result
@@ -299,6 +347,8 @@ def judge_tasks(ctx, trows):
         else:
             ctx.count("model-declines")
         ok = not str(obs["checksum"]).startswith("!") and all(c == obs["checksum"] for c in obs["children"])
+        if "unshared_checksum" in obs:
+            ok = ok and obs["unshared_checksum"] == obs["checksum"] and all(c == obs["checksum"] for c in (obs["pickled_checksums"] or ["?"]))
         ok = ok and obs.get("dirs_ok") is not False and obs.get("second_session_served_from_cache") is not False
         ok = ok and obs.get("outs_equal") is not False
         if spec.get("hash_value"):
